@@ -5,7 +5,8 @@ All three checks draw their cases from the same generator and run every case wit
 written file F1 (C18: run it with pytest), the assertion snapshots (C19) and the parse/re-export round trip F2 (C24).
 Each check evaluates only its own oracle.  When ``VERIF_GENFILES_CACHE=<dir>`` is set, run results are stored there keyed
 by the case (and the active ``VERIF_BREAK``), so running the three checks one after the other re-uses the pipeline runs;
-without it every check runs its own pipelines (the default, nothing is written outside ``ctx.scratch``).
+without it every check runs its own pipelines (the default, nothing is written outside ``ctx.scratch``).  With
+``VERIF_GENFILES_CACHE_ONLY=1`` in addition, cases that are not in the cache are skipped (evaluation of an interrupted run).
 
 A *case* is a JSON-able dict ``{"sut", "seed", "algo", "ag", "no_xfail", "black", "post_process", "iters", "strategy",
 "direction"}``.
@@ -160,6 +161,9 @@ def run_case(ctx, c, idx, monitors=None, timeout=400):
                 ctx.count("cache_hits")
             except Exception:  # noqa: BLE001
                 res = None
+    if res is None and cache and os.environ.get("VERIF_GENFILES_CACHE_ONLY"):
+        ctx.count("cache_misses_skipped")  # evaluate only what an interrupted earlier run left in the cache
+        return None
     if res is None:
         res = run_pipeline(case_spec(c, proj, out, monitors), timeout=timeout, env_extra={"VERIF_BREAK": brk})
         ctx.count("pipeline_runs")
